@@ -308,7 +308,10 @@ fn cmd_check(args: &Args) -> i32 {
     let t0 = Instant::now();
     let agg = run_batch(eng.as_ref(), args.seed, quick, 0, runs, args.workers, &known, true);
     // determinism self-check: re-execute the first runs on one worker and compare digests
-    let mut notes = vec![];
+    let mut notes = vec![format!(
+        "std::sync interposition in this build: {}",
+        std::env::var("LIQUID_SIM_INTERPOSE").unwrap_or_else(|_| "unknown (binary started without check.sh)".into())
+    )];
     if agg.violations.is_empty() {
         let n = 32.min(runs);
         let again = run_batch(eng.as_ref(), args.seed, quick, 0, n, 1, &known, true);
